@@ -51,12 +51,19 @@ Proof.
   repeat constructor; unfold tinv; cbn; try exact I; repeat split; vm_compute; congruence.
 Qed.
 
-(* a revived group's members keep a stale DirectMemberOf: the refutation's middle state *)
-Example C26_witness_refuted_state :
-  dmo_consb (ents (run 10 10
-    (mkst 100 [mkent 0 0 Live 0 0 [] [] None None [1]; mkent 1 1 Live 0 0 [0] [] None None []])
-    [(ODelete 1, 200); (ORevive 1, 300)])) = false.
-Proof. vm_compute. reflexivity. Qed.
+(* after 76a0ae1 a revived group's members get their DirectMemberOf back (hypotheses of
+   C26_full_statement / C26_dmo_complete_invariant are met by this history); before it they kept
+   a stale one — the middle state of C26_prefix_refuted *)
+Definition wg : state :=
+  mkst 100 [mkent 0 0 Live 0 0 [] [] None None [1]; mkent 1 1 Live 0 0 [0] [] None None []].
+Example C26_witness_group_revive :
+  fresh wg = true
+  /\ dmo_consb (ents (run 10 10 wg [(ODelete 1, 200); (ORevive 1, 300)])) = true
+  /\ snd (step 10 10 (run 10 10 wg [(ODelete 1, 200); (ORevive 1, 300)]) (ODelete 0) 400) = 0
+  /\ map erdmo (ents (fst (step 10 10 (run 10 10 wg [(ODelete 1, 200); (ORevive 1, 300)]) (ODelete 0) 400)))
+     = [[1]; []]
+  /\ dmo_consb (ents (run_prefix 10 10 wg [(ODelete 1, 200); (ORevive 1, 300)])) = false.
+Proof. vm_compute. repeat split; reflexivity. Qed.
 
 (* an agreeing observed history (hypothesis of C26_agree_implies_core) *)
 Example C26_witness_agree :
